@@ -15,6 +15,7 @@ import (
 	"encoding/json"
 	"fmt"
 	"math/big"
+	"regexp"
 	"strings"
 
 	"github.com/pkg/errors"
@@ -54,6 +55,8 @@ type Opts struct {
 	Txids bool
 	// Twin keeps the pre-restart repository alive after a reload and feeds both the same submissions.
 	Twin bool
+	// LargeEvery: one run in LargeEvery uses long chain mode (0 = never).
+	LargeEvery int
 	// ConfigInvalid puts one hash into Config.InvalidHeaderHashes (C17: config supplied markings).
 	ConfigInvalid bool
 }
@@ -88,6 +91,8 @@ type World struct {
 	lastSaveTip *model.Node
 	reloads     int
 
+	large           bool // long chain mode: chains cross 1000-header file boundaries; checks run per operation
+	quiet           bool // inside a bulk operation: per-event oracle groups are deferred to its end
 	markBeyondPrune bool
 	trimParents     map[*model.Node]bool
 
@@ -131,6 +136,15 @@ func Start(c *core.Ctx, o Opts) *World {
 		if o.SmallPrune && t.Chance(3, 4) {
 			cfg.B = cfg.A + 2 + t.Draw(10)
 		}
+		if o.SmallPrune && o.LargeEvery > 0 && t.Chance(1, o.LargeEvery) {
+			// long chain mode: 900-2700 headers up front, prune depth in the hundreds, so that pruning,
+			// saving and loading cross the 1000-header file boundaries
+			cfg.D = 1
+			cfg.B = 150 + t.Draw(1200)
+			if cfg.A > 100 {
+				cfg.A = 8
+			}
+		}
 		w.peers = 1 + t.Draw(4)
 		w.skew = make([]int, w.peers)
 		for i := range w.skew {
@@ -146,6 +160,7 @@ func Start(c *core.Ctx, o Opts) *World {
 	c.Record(cfg)
 	w.maxDepth = cfg.A
 	w.pruneDepth = cfg.B
+	w.large = cfg.D == 1
 	w.cfg = &headers.Config{Network: bitcoin.MainNet, MaxBranchDepth: w.maxDepth}
 	if o.ConfigInvalid {
 		w.cfg.InvalidHeaderHashes = []bitcoin.Hash32{configInvalidHash}
@@ -346,6 +361,24 @@ func (w *World) execMint(op Op) *model.Node {
 	return n
 }
 
+// execMintQuiet mints without logging an event (bulk growth).
+func (w *World) execMintQuiet(op Op) *model.Node {
+	parent := w.bySerial[op.B]
+	if parent == nil || w.bySerial[op.A] != nil {
+		return nil
+	}
+	txids := txidsFor(op.A, op.E)
+	h := &wire.BlockHeader{Version: 1, PrevBlock: parent.Hash, MerkleRoot: model.MerkleRoot(txids), Timestamp: parent.Header.Timestamp + uint32(op.D),
+		Bits: bitsMenu[op.C%len(bitsMenu)], Nonce: uint32(op.A)}
+	n := w.m.Mint(parent, h, txids)
+	n.Serial = op.A
+	w.bySerial[op.A] = n
+	if op.A >= w.nextSer {
+		w.nextSer = op.A + 1
+	}
+	return n
+}
+
 // tips returns the leaves of the reference tree (mint order).
 func (w *World) tips(acceptedOnly bool) []*model.Node {
 	var out []*model.Node
@@ -402,7 +435,7 @@ func (w *World) Submit(n *model.Node, peer int, note string) string {
 	allowed := w.expected(n)
 	oldTip := w.tip
 	var before string
-	if w.on("c08") {
+	if w.on("c08") && !w.quiet {
 		before = w.snapshot(false)
 	}
 	if n.Parent != nil && !n.Parent.Accepted {
@@ -412,7 +445,9 @@ func (w *World) Submit(n *model.Node, peer int, note string) string {
 	}
 	err := w.repo.ProcessHeader(w.ctx, n.Header)
 	v := Verdict(err)
-	w.c.Event("submit n%d h=%d parent=n%d peer=%d %s-> %s", n.Serial, n.Height, serialOf(n.Parent), peer, note, v)
+	if !w.quiet || v != "ok" {
+		w.c.Event("submit n%d h=%d parent=n%d peer=%d %s-> %s", n.Serial, n.Height, serialOf(n.Parent), peer, note, v)
+	}
 
 	wasAccepted := n.Accepted
 	if v == "ok" && !n.Accepted && n.Parent != nil && n.Parent.Accepted {
@@ -447,7 +482,7 @@ func (w *World) Submit(n *model.Node, peer int, note string) string {
 				n.Serial, n.Height, serialOf(n.Parent), n.Parent != nil && n.Parent.Accepted, n.Parent != nil && n.Parent.MemOpt,
 				wasAccepted, w.marked[n.Hash], n.Parent != nil && hasAcceptedChild(n.Parent, n), oldTip.Height, w.maxDepth, v, allowed)
 		}
-		if (v != "ok" || wasAccepted) && !insertedThenError {
+		if (v != "ok" || wasAccepted) && !insertedThenError && !w.quiet {
 			after := w.snapshot(false)
 			if after != before {
 				w.c.Fail("c08.refusal-changes-nothing", "observable-changed:"+classOnly(v),
@@ -503,11 +538,55 @@ func (w *World) afterMutation(oldTip *model.Node, submitted *model.Node, verdict
 			}
 		}
 	}
-	if w.on("c01") {
-		w.checkTip(verdict)
-	}
 	if w.on("c07") {
 		w.checkStream(oldTip, tn, submitted)
+	}
+	if w.quiet {
+		return
+	}
+	if w.large && submitted != nil && w.c.Seq()%6 != 0 {
+		return // long chain mode: whole-state groups run on every 6th submission and on every maintenance operation
+	}
+	w.groupChecks(verdict)
+}
+
+// sampled: in long chain mode the per-header observations cover every side-branch header and, on the
+// best chain, the headers near the tip, near the prune line, near the 1000-header file boundaries, the
+// first three, and every 97th.
+func (w *World) sampled(n *model.Node) bool {
+	if !w.large {
+		return true
+	}
+	if !w.onBest(n) || n.Height < 3 || w.tip.Height-n.Height < 20 || n.Height%97 == 0 {
+		return true
+	}
+	m := n.Height % 1000
+	if m <= 2 || m >= 997 {
+		return true
+	}
+	d := n.Height - w.pruneLine
+	return d >= -4 && d <= 4
+}
+
+func (w *World) sampledHeight(h, tipHeight int) bool {
+	if !w.large {
+		return true
+	}
+	if h < 3 || tipHeight-h < 20 || h%97 == 0 {
+		return true
+	}
+	m := h % 1000
+	if m <= 2 || m >= 997 {
+		return true
+	}
+	d := h - w.pruneLine
+	return d >= -4 && d <= 4
+}
+
+// groupChecks runs the oracle groups that look at the whole state.
+func (w *World) groupChecks(verdict string) {
+	if w.on("c01") {
+		w.checkTip(verdict)
 	}
 	if w.on("c09") {
 		w.checkLookups()
@@ -548,16 +627,12 @@ func (w *World) checkTip(verdict string) {
 
 // checkAncestry verifies Hash(h)/Header(h) for 0..tip against the tip's ancestry in the model.
 func (w *World) checkAncestry(inv string, repo *headers.Repository, tn *model.Node) bool {
-	step := 1
-	if tn.Height > 600 {
-		step = tn.Height / 300
-	}
 	x := tn
 	for h := tn.Height; h >= 0; h-- {
 		if x == nil {
 			break
 		}
-		if (tn.Height-h)%step == 0 || h < 3 {
+		if w.sampledHeight(h, tn.Height) {
 			hash, err := repo.Hash(w.ctx, h)
 			if err != nil {
 				w.c.Fail(inv, "hash-error", "Hash(%d) failed: %s (tip height %d)", h, err, tn.Height)
@@ -607,12 +682,14 @@ func errClass(err error) string {
 	case headers.ErrHeaderNotAvailable:
 		return "not-available"
 	}
-	s := err.Error()
+	s := reHex.ReplaceAllString(err.Error(), "#")
 	if len(s) > 40 {
 		s = s[:40]
 	}
 	return "err(" + s + ")"
 }
+
+var reHex = regexp.MustCompile(`[0-9a-f]{16,}`)
 
 func phOptional(n *model.Node) bool {
 	return n.MemOpt || (n.Parent != nil && n.Parent.MemOpt)
@@ -629,11 +706,10 @@ func (w *World) snapshotOf(repo *headers.Repository, skipMem bool) string {
 	last := repo.LastHash()
 	fmt.Fprintf(&sb, "tip=%s h=%d w=%s t=%d\n", last, repo.Height(), repo.AccumulatedWork().Text(16), repo.LastTime())
 	H := repo.Height()
-	step := 1
-	if H > 600 {
-		step = H / 300
-	}
-	for h := 0; h <= H+1; h += step {
+	for h := 0; h <= H+1; h++ {
+		if !w.sampledHeight(h, H) && h != H+1 {
+			continue
+		}
 		hash, err := repo.Hash(w.ctx, h)
 		hdr, err2 := repo.Header(w.ctx, h)
 		hs, ds := "-", "-"
@@ -647,6 +723,9 @@ func (w *World) snapshotOf(repo *headers.Repository, skipMem bool) string {
 		fmt.Fprintf(&sb, "H%d=%s/%s/%s/%s\n", h, hs, errClass(err), ds, errClass(err2))
 	}
 	for _, n := range w.m.All {
+		if !w.sampled(n) {
+			continue
+		}
 		hh := repo.HashHeight(n.Hash)
 		ch, cl, cerr := repo.CheckHeader(w.ctx, n.Hash)
 		gh, gheight, gl, gerr := repo.GetHeader(w.ctx, n.Hash)
@@ -713,6 +792,9 @@ func (w *World) onBest(n *model.Node) bool { return model.IsAncestorOrEqual(n, w
 
 func (w *World) checkLookups() {
 	for _, n := range w.m.All {
+		if !w.sampled(n) {
+			continue
+		}
 		if !n.Accepted {
 			// never accepted (or legitimately forgotten): must be unknown
 			if hh := w.repo.HashHeight(n.Hash); hh != -1 && !n.Forget {
